@@ -241,7 +241,8 @@ class Repo:
         return os.path.relpath(m.path, self.root)
 
     def where(self, node):
-        return f"{self.rel(node)}:{getattr(node, 'lineno', 0)}"
+        line = getattr(node, "_orig_lineno", getattr(node, "lineno", 0))
+        return f"{self.rel(node)}:{line}"
 
     def cls(self, qualname):
         try:
